@@ -1,9 +1,10 @@
 #!/bin/bash
 # regress_seeds.sh [names...] : re-run every seeded change (seeded/<name>/patch.diff) against the
-# property's quick check in one scratch worktree (/tmp/seedrun, fixed path = build cache friendly)
+# property's quick check in one scratch worktree (per-process path so that several runs do not collide)
 # and print caught / MISSED per seed. Does not re-run the authors' demos (see try_seed.sh).
 export GOFLAGS=-mod=mod GOPROXY=off GOSUMDB=off GOTOOLCHAIN=local
-WT=/tmp/seedrun
+WT=${SEEDWT:-/tmp/seedrun-$$}
+BD=/verif/build/seed-regress-$$
 NAMES="$@"; [ -z "$NAMES" ] && NAMES=$(ls /verif/seeded)
 git -C /repo worktree remove --force $WT >/dev/null 2>&1
 git -C /repo worktree add $WT HEAD >/dev/null 2>&1 || { echo "worktree failed"; exit 9; }
@@ -11,9 +12,9 @@ for n in $NAMES; do
   prop=$(echo $n | cut -c1-3)
   git -C $WT checkout -- . ; git -C $WT clean -fdq
   if ! git -C $WT apply /verif/seeded/$n/patch.diff 2>/dev/null; then echo "$n PATCH-DOES-NOT-APPLY"; continue; fi
-  VERIF_REPO=$WT VERIF_BUILD=/verif/build/seed-regress /verif/check $prop --tier ${TIER:-quick} --seed ${SEED:-1} > /tmp/regress-$n.log 2>&1
+  VERIF_REPO=$WT VERIF_BUILD=$BD /verif/check $prop --tier ${TIER:-quick} --seed ${SEED:-1} > /tmp/regress-$$-$n.log 2>&1
   rc=$?
-  if [ $rc = 1 ]; then echo "$n caught | $(grep 'first violation' /tmp/regress-$n.log | head -1 | cut -c1-140)";
-  else echo "$n MISSED rc=$rc | $(tail -1 /tmp/regress-$n.log | cut -c1-140)"; fi
+  if [ $rc = 1 ]; then echo "$n caught | $(grep 'first violation' /tmp/regress-$$-$n.log | head -1 | cut -c1-140)";
+  else echo "$n MISSED rc=$rc | $(tail -1 /tmp/regress-$$-$n.log | cut -c1-140)"; fi
 done
-git -C /repo worktree remove --force $WT; rm -rf /verif/build/seed-regress
+git -C /repo worktree remove --force $WT; rm -rf $BD
